@@ -57,6 +57,10 @@ def payloads(rng, tier):
     # the progress printer itself (it is not part of the regenerated model: its calls are evaluated and dropped): every way the
     # library calls it -- (current, total) with 1 <= current <= total, optional extra dict -- at small, boundary and large sizes,
     # as a fresh object and as one re-used across a whole count-up
+    # the same question asked under every calling convention, interleaved with the transposed question: no call may leave anything
+    # behind that changes a later answer (props/c13.py builds and judges the case)
+    for _ in range({"quick": 30, "thorough": 300, "search": 30}[tier]):
+        yield "conventions", {"k": rng.randint(1, 6), "v": rng.randint(0, 6), "seed": rng.randrange(1 << 30)}
     for _ in range({"quick": 6, "thorough": 60, "search": 6}[tier]):
         total = rng.choice([1, 2, 3, 4, 5, 7, 16, 19, 20, 21, 64, 99, 100, 101, 256, 999, 1000, 1001, 4 ** 5, 4 ** 8, 10 ** 6,
                             rng.randrange(1, 10 ** 7), 4 ** rng.randint(1, 12), 10 ** rng.randint(1, 12)])
@@ -402,6 +406,9 @@ def build(stream, p):
         return build_verbose_pair(stream, p)
     if stream == "progress":
         return build_progress(stream, p)
+    if stream == "conventions":
+        from props import c13
+        return c13.build(stream, p)
     box = {}
 
     def run():
